@@ -7,6 +7,7 @@ import (
 	"encoding/json"
 	"errors"
 	"fmt"
+	"github.com/theparanoids/ysshra/sshutils/version"
 	"net"
 	"os"
 	"path/filepath"
@@ -53,6 +54,9 @@ type CABehaviour struct {
 	// ErrWithCerts: the call fails (Err) but hands back certificates next to the error; they are
 	// not recorded in CACall.Certs, because the request was not signed.
 	ErrWithCerts bool
+	// Window: validity window the CA stamps: "" = [now-60 s, now+validity] | forever = [0, infinity] |
+	// ahead = the CA's clock is 90 s ahead and it does not backdate | huge = valid until 2^63 s
+	Window string
 }
 
 // FakeCA implements csr.Signer: it really certifies the requested public key.
@@ -113,6 +117,14 @@ func (ca *FakeCA) Sign(ctx context.Context, req *proto.SSHCertificateSigningRequ
 	for j := 0; j < n; j++ {
 		c := &ssh.Certificate{Key: pub, Serial: uint64(i*10 + j), CertType: ssh.UserCert, KeyId: req.KeyId, ValidPrincipals: req.Principals,
 			ValidAfter: now - 60, ValidBefore: now + req.Validity, Permissions: ssh.Permissions{Extensions: req.Extensions}}
+		switch b.Window {
+		case "forever":
+			c.ValidAfter, c.ValidBefore = 0, ssh.CertTimeInfinity
+		case "ahead":
+			c.ValidAfter, c.ValidBefore = now+90, now+90+req.Validity
+		case "huge":
+			c.ValidBefore = 1 << 63
+		}
 		caKey := []string{"ed25519a", "p256a", "rsa2048a"}[j%3]
 		if err := c.SignCert(rand.Reader, SSHSigner(caKey)); err != nil {
 			return nil, nil, err
@@ -225,14 +237,19 @@ type ParamSpec struct {
 	SigAlgo       int
 	// Via: direct (struct literal) | env (through csr.NewReqParam)
 	Via string
+	// ClientVersion is the client-declared SSH client version ("" = 8.1).
+	ClientVersion string
 	// NilAttrs (direct only): the parameters carry no client attributes at all.
 	NilAttrs bool
 }
 
 // BuildParam constructs the request parameters either directly or through NewReqParam.
 func BuildParam(s ParamSpec) (*csr.ReqParam, error) {
+	if s.ClientVersion == "" {
+		s.ClientVersion = "8.1"
+	}
 	if s.Via == "env" {
-		m := map[string]any{"ifVer": 7, "username": s.ReqUser, "hostname": s.ReqHost, "sshClientVersion": "8.1", "hardKey": s.HardKey, "caPubKeyAlgo": s.CAAlgo,
+		m := map[string]any{"ifVer": 7, "username": s.ReqUser, "hostname": s.ReqHost, "sshClientVersion": s.ClientVersion, "hardKey": s.HardKey, "caPubKeyAlgo": s.CAAlgo,
 			"touch2SSH": s.Touch2SSH, "signatureAlgo": s.SigAlgo}
 		if s.TSFirefighter || s.TSHosts != "" || s.TSTime != 0 {
 			m["touchlessSudo"] = map[string]any{"isFirefighter": s.TSFirefighter, "hosts": s.TSHosts, "time": s.TSTime}
@@ -250,10 +267,11 @@ func BuildParam(s ParamSpec) (*csr.ReqParam, error) {
 		return &csr.ReqParam{NamespacePolicy: common.NamespacePolicy(s.Policy), HandlerName: regular.HandlerName, ClientIP: s.ClientIP, LogName: s.LogName,
 			ReqUser: s.ReqUser, ReqHost: s.ReqHost, TransID: s.TransID}, nil
 	}
+	cv, _ := version.Unmarshal(s.ClientVersion)
 	return &csr.ReqParam{
 		NamespacePolicy: common.NamespacePolicy(s.Policy), HandlerName: regular.HandlerName, ClientIP: s.ClientIP, LogName: s.LogName,
-		ReqUser: s.ReqUser, ReqHost: s.ReqHost, TransID: s.TransID,
-		Attrs: &message.Attributes{IfVer: 7, Username: s.ReqUser, Hostname: s.ReqHost, SSHClientVersion: "8.1", HardKey: s.HardKey, CAPubKeyAlgo: x509.PublicKeyAlgorithm(s.CAAlgo),
+		ReqUser: s.ReqUser, ReqHost: s.ReqHost, TransID: s.TransID, SSHClientVersion: cv,
+		Attrs: &message.Attributes{IfVer: 7, Username: s.ReqUser, Hostname: s.ReqHost, SSHClientVersion: s.ClientVersion, HardKey: s.HardKey, CAPubKeyAlgo: x509.PublicKeyAlgorithm(s.CAAlgo),
 			Touch2SSH: s.Touch2SSH, SignatureAlgo: x509.SignatureAlgorithm(s.SigAlgo), Exts: s.Exts,
 			TouchlessSudo: &message.TouchlessSudo{IsFirefighter: s.TSFirefighter, Hosts: s.TSHosts, Time: s.TSTime}},
 	}, nil
